@@ -140,57 +140,59 @@ func satisfiesConstraint(version *Version, c *constraint, ecosystem *Ecosystem) 
 }
 
 // satisfiesPessimistic implements the Ruby Gem pessimistic constraint (~>)
+// As in Gem::Requirement: ~> X.Y.Z := >= X.Y.Z and release < X.(Y+1), where the upper
+// bound is Gem::Version#bump of the constraint (drop everything from the first string
+// segment on, drop the last numeric segment unless it is the only one, increment the new
+// last one) and "release" is the version without its prerelease part.
+// ~> 1.2.3 := >= 1.2.3, < 1.3 ; ~> 1.2 := >= 1.2, < 2 ; ~> 1.0.0-alpha := >= 1.0.0-alpha, < 1.0.1
 func satisfiesPessimistic(version, constraint *Version) bool {
-	// ~> 1.2.3 means >= 1.2.3 and < 1.3.0
-	// ~> 1.2 means >= 1.2.0 and < 2.0.0
-
 	// Must be >= constraint version
 	if version.Compare(constraint) < 0 {
 		return false
 	}
 
-	// Get the numeric parts of both version and constraint for comparison
-	versionNumeric, _ := version.splitNumericAndPrerelease()
-	constraintNumeric, constraintPrerelease := constraint.splitNumericAndPrerelease()
+	release, _ := version.splitNumericAndPrerelease()
+	return compareSegmentArrays(release, bumpSegments(constraint)) < 0
+}
 
-	// For range calculations, we need to understand the original precision
-	// Count numeric segments from the original constraint string
-	constraintStr := constraint.String()
-	mainPart := constraintStr
-	if dashIndex := strings.Index(constraintStr, "-"); dashIndex != -1 {
-		mainPart = constraintStr[:dashIndex]
-	}
-	originalSegments := strings.Split(mainPart, ".")
-	numericSegments := len(originalSegments)
-
-	// For pessimistic constraints, all segments except the last must match exactly
-	numSegmentsToCheck := numericSegments - 1
-
-	// Special case: single segment constraint (~> 1)
-	if numericSegments == 1 {
-		numSegmentsToCheck = 1
-	}
-
-	// Special case: constraint has prerelease (~> 1.0.0-alpha)
-	// When constraint has prerelease, all numeric segments must match exactly
-	if len(constraintPrerelease) > 0 {
-		numSegmentsToCheck = numericSegments
-	}
-
-	// Check that the required segments match exactly
-	for i := 0; i < numSegmentsToCheck; i++ {
-		var vSeg, cSeg int
-		if i < len(versionNumeric) {
-			vSeg = versionNumeric[i].numValue
+// bumpSegments returns the exclusive upper bound of a pessimistic constraint
+func bumpSegments(constraint *Version) []segment {
+	// The constraint's numeric segments as written (canonical segments have lost trailing zeros)
+	text := strings.TrimPrefix(strings.TrimSpace(constraint.String()), "v")
+	var numeric []string
+	for _, part := range segmentPattern.FindAllString(text, -1) {
+		if part[0] < '0' || part[0] > '9' {
+			break
 		}
-		if i < len(constraintNumeric) {
-			cSeg = constraintNumeric[i].numValue
-		}
-
-		if vSeg != cSeg {
-			return false
-		}
+		numeric = append(numeric, part)
+	}
+	// A prerelease constraint (~> 1.0.0-alpha) stays within its own release: < 1.0.1
+	_, prerelease := constraint.splitNumericAndPrerelease()
+	if len(numeric) > 1 && len(prerelease) == 0 {
+		numeric = numeric[:len(numeric)-1]
 	}
 
-	return true
+	bumped := make([]segment, 0, len(numeric))
+	for _, part := range numeric {
+		bumped = append(bumped, createSegment(part))
+	}
+	if len(bumped) == 0 {
+		return []segment{createSegment("1")}
+	}
+	last := &bumped[len(bumped)-1]
+	*last = createSegment(incrementDecimal(last.value))
+	return bumped
+}
+
+// incrementDecimal adds one to a decimal string of any length
+func incrementDecimal(digits string) string {
+	b := []byte(digits)
+	for i := len(b) - 1; i >= 0; i-- {
+		if b[i] != '9' {
+			b[i]++
+			return string(b)
+		}
+		b[i] = '0'
+	}
+	return "1" + string(b)
 }
